@@ -420,6 +420,26 @@ pub fn run(run: &Run) {
     });
     // in-process part: skipped when the child-process cases already failed (a decoder that hangs or overflows there
     // would take this process down or stall it); a call that does not return within the cap ends the run with a verdict
+    // every body of up to two bytes over a small byte menu, for the four AMF-carrying message types
+    {
+        let menu: [u8; 9] = [0, 1, 2, 3, 5, 8, 9, 10, 0xFF];
+        let mut bodies: Vec<Vec<u8>> = vec![vec![]];
+        for a in menu {
+            bodies.push(vec![a]);
+            for b in menu {
+                bodies.push(vec![a, b]);
+            }
+        }
+        for t in [15u8, 17, 18, 20] {
+            for body in bodies.iter() {
+                let p = rml_rtmp::messages::MessagePayload { timestamp: rml_rtmp::time::RtmpTimestamp::new(0), type_id: t, message_stream_id: 1, data: bytes::Bytes::from(body.clone()) };
+                if let Err(pn) = guarded(|| p.to_rtmp_message().is_ok()) {
+                    run.violation("C14/panic/message-body", &format!("{} on a type {} message with body {}", pn, t, crate::util::hex(body)), json!({"type_id": t, "body": crate::util::hex(body)}));
+                }
+            }
+        }
+        run.count("tiny_message_bodies", 4 * bodies.len() as u64);
+    }
     let g = if run.violation_count() == 0 {
         crate::watchdog::start("C14", "C14/hang/token-grammar", if thorough { 60.0 } else { 20.0 });
         token_grammar(run, if thorough { 5 } else { 4 })
